@@ -3,7 +3,13 @@
 // script, which the fake server parks), the server runs a parked caller's script, the clock advances by d ticks.
 // One tick is a fixed slice of real time chosen so that "same window / next window / keys expired" in the model
 // (W = 2 ticks, Slack = 2 ticks) and in reality (window 1150 ms, key slack 1000 ms, tick 500 ms) agree with margins
-// of >= 150 ms: 2 ticks = 1000 < 1150 < 1500 = 3 ticks, and 4 ticks = 2000 < 2150 < 2500 = 5 ticks.  Every caller is a separate limiter instance with its own client (a separate process as far as the
+// of >= 150 ms: 2 ticks = 1000 < 1150 < 1500 = 3 ticks, and 4 ticks = 2000 < 2150 < 2500 = 5 ticks.  In general a window
+// of w ticks is w*500+150 ms (w ticks < window < w+1 ticks, w+2 ticks < window+1000 ms < w+3 ticks).
+// Every limiter instance is configured with the scenario's DEFAULT limit and window; a Read step says how many
+// per-call options the call passes (WithCustomRateLimit) and with which values: the last one is the limit/window the
+// specification holds the call to, an option in front of it is a decoy with other values.  Calls that pass no option
+// in the scenario sometimes pass the configured values explicitly (seeded choice).
+// Every caller is a separate limiter instance with its own client (a separate process as far as the
 // limiter is concerned); the server runs on a virtual clock that the driver synchronises with real time right
 // before it lets a script run, so the server time of every execution is known exactly.
 //
@@ -39,10 +45,12 @@ var (
 )
 
 const (
-	tick     = 500 * time.Millisecond
-	windowMs = 1150
-	staleMax = 2000 // ms; window + key slack = 2150
+	tick        = 500 * time.Millisecond
+	staleMargin = 850 // ms; a call is inside the assumption when its script ran at most window + 850 ms after its clock reading (window + key slack = window + 1000)
 )
+
+// windowMsOf maps a window of w ticks to real time (w = 2 <-> 1150 ms)
+func windowMsOf(w int) int { return w*500 + 150 }
 
 type step struct {
 	A         string `json:"a"`
@@ -51,6 +59,11 @@ type step struct {
 	N         int    `json:"n"`
 	D         int    `json:"d"`
 	Clock     int    `json:"clock"`
+	Lim       int    `json:"lim"` // limit / window (ticks) in force for the call
+	W         int    `json:"w"`
+	Nopt      int    `json:"nopt"` // number of options the call passes
+	Lim0      int    `json:"lim0"` // the option in front of the one in force (nopt = 2)
+	W0        int    `json:"w0"`
 	Allowed   bool   `json:"allowed"`
 	Remaining int    `json:"remaining"`
 	Cur       int    `json:"cur"`
@@ -64,11 +77,14 @@ type tcase struct {
 }
 
 type callState struct {
-	phase   int // 0 idle, 1 waiting to be parked, 2 parked, 3 released
-	conn    *fakeredis.Conn
-	parked  chan struct{}
-	id, n   int
-	pending map[string]any // Exec event under construction
+	phase    int // 0 idle, 1 waiting to be parked, 2 parked, 3 released
+	conn     *fakeredis.Conn
+	parked   chan struct{}
+	id, n    int
+	lim, wms int // values of the last option passed (the default when none), for the record only
+	cls      string
+	optkv    []any          // the option list of the call as event fields (nopt, lim1, wms1, lim2, wms2), repeated on its Exec and Ret events
+	pending  map[string]any // Exec event under construction
 }
 
 type scen struct {
@@ -87,7 +103,7 @@ type scen struct {
 
 func (s *scen) emit(ev string, kv ...any) {
 	m := map[string]any{"ev": ev, "c": 0, "id": 0, "n": 0, "now": 0, "next": 0, "cur": 0, "exp": 0, "t": 0, "wasreset": false,
-		"allowed": false, "remaining": 0, "resetat": 0, "cls": ""}
+		"allowed": false, "remaining": 0, "resetat": 0, "cls": "", "lim": 0, "wms": 0, "nopt": 0, "lim1": 0, "wms1": 0, "lim2": 0, "wms2": 0}
 	for i := 0; i+1 < len(kv); i += 2 {
 		m[kv[i].(string)] = kv[i+1]
 	}
@@ -164,10 +180,30 @@ func (s *scen) sink(ev fakeredis.Event) {
 		if cs.pending != nil && len(ev.Reply.Arr) == 2 {
 			p := cs.pending
 			cs.pending = nil
-			s.emit("Exec", "c", callerOf(c), "id", cs.id, "n", p["n"], "now", p["now"], "next", p["next"], "t", p["t"], "wasreset", p["wasreset"],
-				"cur", int(ev.Reply.Arr[0].Int), "exp", int(ev.Reply.Arr[1].Int-s.base), "cls", fmt.Sprintf("n=%d", p["n"]))
+			s.emit("Exec", append([]any{"c", callerOf(c), "id", cs.id, "n", p["n"], "now", p["now"], "next", p["next"], "t", p["t"], "wasreset", p["wasreset"],
+				"cur", int(ev.Reply.Arr[0].Int), "exp", int(ev.Reply.Arr[1].Int - s.base), "lim", cs.lim, "wms", cs.wms,
+				"cls", classOf(p["n"].(int), cs.lim, cs.wms, s.c.Limit, windowMsOf(s.c.W))}, cs.optkv...)...)
 		}
 	}
+}
+
+// classOf names the input class of a call for signatures: n and, when the call carries a per-call option that differs
+// from the configured default, how it differs
+func classOf(n, lim, wms, defLim, defWms int) string {
+	cls := fmt.Sprintf("n=%d", n)
+	switch {
+	case lim < defLim:
+		cls += fmt.Sprintf(" lim=%d<default%d", lim, defLim)
+	case lim > defLim:
+		cls += fmt.Sprintf(" lim=%d>default%d", lim, defLim)
+	}
+	switch {
+	case wms < defWms:
+		cls += fmt.Sprintf(" w=%dms<default%dms", wms, defWms)
+	case wms > defWms:
+		cls += fmt.Sprintf(" w=%dms>default%dms", wms, defWms)
+	}
+	return cls
 }
 
 type outcome struct {
@@ -176,9 +212,10 @@ type outcome struct {
 }
 
 type stats struct {
-	mu                                    sync.Mutex
-	realised, diverged, unmet, evaluations int
-	divergedSamples                       []string
+	mu                                                                   sync.Mutex
+	realised, diverged, unmet, evaluations                               int
+	callsLow, callsHigh, callsWindow, callsTwoOpts, callsExplicitDefault int
+	divergedSamples, droppedSamples                                      []string
 }
 
 func runScenario(idx int, c tcase, rep *vh.Report, st *stats) (events []map[string]any, ok bool) {
@@ -220,7 +257,7 @@ func runScenario(idx int, c tcase, rep *vh.Report, st *stats) (events []map[stri
 				}
 				return cl, err
 			},
-			Limit: c.Limit, Window: windowMs * time.Millisecond,
+			Limit: c.Limit, Window: time.Duration(windowMsOf(c.W)) * time.Millisecond,
 		}
 		if custom {
 			opt.KeyPrefix = s.prefix
@@ -248,17 +285,57 @@ func runScenario(idx int, c tcase, rep *vh.Report, st *stats) (events []map[stri
 			time.Sleep(time.Until(at(stp.Clock)))
 		case "Read":
 			cs := s.calls[stp.C]
+			// the options of this call, as the scenario says; the event records exactly what is passed, in order
+			type optv struct{ lim, wms int }
+			var ov []optv
+			switch {
+			case stp.Nopt >= 2:
+				ov = []optv{{stp.Lim0, windowMsOf(stp.W0)}, {stp.Lim, windowMsOf(stp.W)}}
+			case stp.Nopt == 1:
+				ov = []optv{{stp.Lim, windowMsOf(stp.W)}}
+			case rng.Intn(3) == 0: // no option in the scenario: sometimes the per-call option path with the configured values
+				ov = []optv{{c.Limit, windowMsOf(c.W)}}
+			}
+			opts := []rueidislimiter.RateLimitOption{}
+			for _, o := range ov {
+				opts = append(opts, rueidislimiter.WithCustomRateLimit(o.lim, time.Duration(o.wms)*time.Millisecond))
+			}
+			lastLim, lastWms := c.Limit, windowMsOf(c.W)
+			o1, o2 := optv{}, optv{}
+			if len(ov) > 0 {
+				o1 = ov[0]
+				lastLim, lastWms = ov[len(ov)-1].lim, ov[len(ov)-1].wms
+			}
+			if len(ov) > 1 {
+				o2 = ov[1]
+			}
+			cls := classOf(stp.N, lastLim, lastWms, c.Limit, windowMsOf(c.W))
+			st.mu.Lock()
+			if lastLim < c.Limit {
+				st.callsLow++
+			}
+			if lastLim > c.Limit {
+				st.callsHigh++
+			}
+			if lastWms != windowMsOf(c.W) {
+				st.callsWindow++
+			}
+			if len(ov) > 1 {
+				st.callsTwoOpts++
+			}
+			if len(ov) == 1 && stp.Nopt == 0 {
+				st.callsExplicitDefault++
+			}
+			st.mu.Unlock()
 			s.mu.Lock()
 			cs.phase, cs.parked, cs.id, cs.n = 1, make(chan struct{}), stp.ID, stp.N
-			s.emit("Call", "c", stp.C, "id", stp.ID, "n", stp.N, "cls", fmt.Sprintf("n=%d", stp.N))
+			cs.lim, cs.wms, cs.cls = lastLim, lastWms, cls
+			cs.optkv = []any{"nopt", len(ov), "lim1", o1.lim, "wms1", o1.wms, "lim2", o2.lim, "wms2", o2.wms}
+			s.emit("Call", append([]any{"c", stp.C, "id", stp.ID, "n", stp.N, "cls", cls, "lim", lastLim, "wms", lastWms}, cs.optkv...)...)
 			s.mu.Unlock()
 			ch := make(chan outcome, 1)
 			results[stp.C] = ch
 			l, n, id := limiters[stp.C], stp.N, fmt.Sprintf("id%d", stp.ID)
-			opts := []rueidislimiter.RateLimitOption{}
-			if rng.Intn(3) == 0 { // the per-call option path, with the configured values
-				opts = append(opts, rueidislimiter.WithCustomRateLimit(c.Limit, windowMs*time.Millisecond))
-			}
 			viaN := rng.Intn(2) == 0
 			go func() {
 				ctx, cancel := context.WithTimeout(context.Background(), 40*time.Second)
@@ -311,8 +388,8 @@ func runScenario(idx int, c tcase, rep *vh.Report, st *stats) (events []map[stri
 				rep.Inconcl("scenario %d: call of caller %d returned error %v", idx, stp.C, o.err)
 				return nil, false
 			}
-			s.emit("Ret", "c", stp.C, "id", stp.ID, "n", stp.N, "allowed", o.res.Allowed, "remaining", int(o.res.Remaining),
-				"resetat", int(o.res.ResetAtMs-s.base), "cls", fmt.Sprintf("n=%d", stp.N))
+			s.emit("Ret", append([]any{"c", stp.C, "id", stp.ID, "n", stp.N, "allowed", o.res.Allowed, "remaining", int(o.res.Remaining),
+				"resetat", int(o.res.ResetAtMs - s.base), "cls", s.calls[stp.C].cls, "lim", s.calls[stp.C].lim, "wms", s.calls[stp.C].wms}, s.calls[stp.C].optkv...)...)
 			// the Exec event of this call is the last Exec of this caller
 			var ex map[string]any
 			for i := len(s.events) - 1; i >= 0; i-- {
@@ -326,16 +403,20 @@ func runScenario(idx int, c tcase, rep *vh.Report, st *stats) (events []map[stri
 				rep.Inconcl("scenario %d: no script execution observed for caller %d", idx, stp.C)
 				return nil, false
 			}
-			if ex["t"].(int)-ex["now"].(int) > staleMax {
+			if ex["t"].(int)-ex["now"].(int) > ex["wms"].(int)+staleMargin {
 				st.mu.Lock()
 				st.unmet++
+				if len(st.droppedSamples) < 8 {
+					st.droppedSamples = append(st.droppedSamples, fmt.Sprintf("scenario %d caller %d %s: script ran %d ms after the clock reading (window %d ms), scenario clock %d",
+						idx, stp.C, s.calls[stp.C].cls, ex["t"].(int)-ex["now"].(int), ex["wms"].(int), stp.Clock))
+				}
 				st.mu.Unlock()
 				return nil, true // the machine was too slow: the no-skew assumption of the property is not met, scenario dropped
 			}
 			if o.res.Allowed != stp.Allowed || int(o.res.Remaining) != stp.Remaining || ex["cur"].(int) != stp.Cur || ex["wasreset"].(bool) != stp.Wasreset {
 				realised = false
-				diverge = fmt.Sprintf("scenario %d caller %d n=%d: real allowed=%v remaining=%d cur=%d reset=%v, abstract scenario allowed=%v remaining=%d cur=%d reset=%v",
-					idx, stp.C, stp.N, o.res.Allowed, o.res.Remaining, ex["cur"], ex["wasreset"], stp.Allowed, stp.Remaining, stp.Cur, stp.Wasreset)
+				diverge = fmt.Sprintf("scenario %d caller %d %s: real allowed=%v remaining=%d cur=%d reset=%v, abstract scenario allowed=%v remaining=%d cur=%d reset=%v",
+					idx, stp.C, s.calls[stp.C].cls, o.res.Allowed, o.res.Remaining, ex["cur"], ex["wasreset"], stp.Allowed, stp.Remaining, stp.Cur, stp.Wasreset)
 			}
 		}
 	}
@@ -424,11 +505,13 @@ func main() {
 		rep.Sample(cases[len(cases)/2])
 	}
 	rep.Extra = map[string]any{"scenarios_realised_as_predicted": st.realised, "scenarios_timing_divergent": st.diverged,
-		"scenarios_dropped_assumption_unmet": st.unmet, "divergent_samples": st.divergedSamples, "window_ms": windowMs, "tick_ms": tick.Milliseconds()}
+		"scenarios_dropped_assumption_unmet": st.unmet, "divergent_samples": st.divergedSamples, "dropped_samples": st.droppedSamples, "window_ms": windowMsOf(2), "tick_ms": tick.Milliseconds(),
+		"calls_custom_limit_below_default": st.callsLow, "calls_custom_limit_above_default": st.callsHigh, "calls_custom_window": st.callsWindow,
+		"calls_two_options": st.callsTwoOpts, "calls_option_with_default_values": st.callsExplicitDefault}
 	if len(cases) > 20 && st.unmet*2 > len(cases) {
-		rep.Inconcl("more than half of the scenarios (%d of %d) were dropped because a script ran more than %d ms after its caller read the clock: the machine is too slow for the real-time schedule", st.unmet, len(cases), staleMax)
+		rep.Inconcl("more than half of the scenarios (%d of %d) were dropped because a script ran more than window + %d ms after its caller read the clock: the machine is too slow for the real-time schedule", st.unmet, len(cases), staleMargin)
 	}
 	rep.Assumptions = append(rep.Assumptions,
-		"the limiter reads time.Now(): scenarios run in real time (window 1150 ms, tick 500 ms, key slack 1000 ms); callers and server share one clock; a call whose script runs more than 2000 ms after its clock reading is outside the property (clock skew) and dropped",
+		"the limiter reads time.Now(): scenarios run in real time (default window 1150 ms, a window of w ticks = w*500+150 ms, tick 500 ms, key slack 1000 ms); callers and server share one clock; a call whose script runs more than its window + 850 ms after its clock reading is outside the property (clock skew) and dropped",
 		"every caller is its own limiter instance and client on the same fake server; the server runs on a virtual clock synchronised with real time before each script execution")
 }
